@@ -12,19 +12,21 @@ injected frame by frame into one live connection.  After EVERY frame:
     (sys.monitoring RAISE events, so swallowed ones count); other exceptions are allowed;
   * unless the frame is a valid disconnect for its layer (independent decoder in c17_wire), the
     connection must still be in Device.connections / Host.connections on both sides;
-  * the protocol's reference request is sent and must get the independently computed correct answer
-    (a failing probe is retried once after 40 s of virtual time so that "recovers after its own
-    time-out" is not reported as a wedge).
+  * the protocol's reference request is sent and must get the independently computed correct answer.
+    When it does not, an identical second request tells "only the first request after the frame is
+    lost" (kind probe_<why>_once) from a lasting failure; a lasting failure is asked a third time after
+    40 s of virtual time so that "recovers after its own time-out" is counted, not reported.
 
 Many frames share one connection; on the first failure the history is bisected to a minimal
 (<= 2 frames when possible) reproducer on a fresh connection.  Signature = (bed, failure kind,
 root-cause site) where the site is the exception type + innermost bumble frame seen while the
-reproducer / the probe was processed, the spinning bumble frame for a busy loop, or, when nothing was
-raised at all, the seed and kind of deviation.
+reproducer / the probe was processed; else a recognisable bad state of the victim read from its public
+attributes (Bed.diagnose: e.g. 'rfcomm.dlc_object_replaced'; descriptive only, never a verdict); else an
+exception swallowed inside bumble; else the structural class of the frame by an independent decoder.  For
+a busy loop the site is the innermost frame object common to four stack samples (the function that
+spins, not whatever callee the alarm happened to interrupt).
 """
 from __future__ import annotations
-
-import os
 
 from .. import core
 from ..harness import c17_beds as B
@@ -33,7 +35,7 @@ from ..harness import c17_wire as W
 LEVEL = 'fault_enumeration'
 RESET_EVERY = 192  # frames per connection before a fresh one is made (bounds the history to bisect)
 RETRY_VIRTUAL_SECONDS = 40.0
-FAST_GUARD = 0.25  # CPU seconds; used once a busy-loop site has been confirmed with the full guard
+FAST_GUARD = 0.25  # CPU seconds; used by a worker once it has confirmed a busy-loop site with the full 5 s guard
 
 
 # ---------------------------------------------------------------------------
@@ -330,17 +332,7 @@ def work(item):
     import time
     import warnings
 
-    warnings.simplefilter('ignore')
-    t_cpu = time.process_time()
-    try:
-        return _work(item)
-    finally:
-        pass
-
-
-def _work(item):
-    import time
-
+    warnings.simplefilter('ignore')  # bumble's "Only for testing" FutureWarnings
     t_cpu = time.process_time()
     bed_name, quick, idx, n, seed, explicit = item
     st = core.Stats(bed_name)
@@ -561,7 +553,8 @@ def run(ctx: core.Context) -> int:
             'ordinary exceptions (anything but RecursionError) while processing a hostile frame are allowed by the statement',
             'a frame that an independent decoder recognises as a valid disconnect for its layer ends the connection under test and is not probed',
             'all byte strings only up to length 2; beyond that the <= 1 / <= 2 deviation neighbourhood of one well-formed PDU per class',
-            'the CPU-time guard (5 s, 0.5 s after the first confirmed site) is the only place real time is consulted',
+            'the CPU-time guard (5 s of process CPU time; 0.25 s in a worker after it confirmed a spinning site) is the only place real time is consulted',
+            'stream channels (AT lines, K-frames of one SDU): a frame that ends inside a line / an SDU is legitimately continued by the next bytes, so the first reference request after it is not judged (AT) or the SDU is completed first (LE CoC)',
         ],
         extra=extra,
     )
